@@ -26,6 +26,8 @@ type Cfg struct {
 	EarlyExit  bool // return inside nested blocks of functions
 	Markers    bool // every block prints a marker on entry
 	Recursion  bool // add recursive and mutually recursive functions
+	IterMarks  bool // loop bodies start with print "@iter", function bodies with print "@call"
+	Tests      bool // sprinkle calls of the test built-in
 }
 
 // Default is a balanced configuration.
@@ -817,6 +819,12 @@ func (g *G) Stmt(depth int) []m.Stmt {
 			return []m.Stmt{s}
 		}
 		return []m.Stmt{g.Decl(d)}
+	case k == 9 && g.Cfg.Tests:
+		if g.chance("test1", 1, 2) {
+			return []m.Stmt{&m.CallStmt{C: &m.Call{Fn: "test", Args: []m.Expr{m.AsAny(g.Natural(m.TBool, 1))}, Ty: m.TNone}}}
+		}
+		ty := g.concrete(1)
+		return []m.Stmt{&m.CallStmt{C: &m.Call{Fn: "test", Args: []m.Expr{m.AsAny(g.Natural(ty, 1)), m.AsAny(g.Natural(ty, 1))}, Ty: m.TNone}}}
 	case k < 10:
 		n := 1 + g.intn("nprint", 3)
 		var args []m.Expr
@@ -921,6 +929,9 @@ func (g *G) While(depth int) []m.Stmt {
 	g.forgetAll()
 	inc := &m.Assign{Target: &m.Var{Name: cnt, Ty: m.TNum}, Val: &m.Binary{Op: "+", L: &m.Var{Name: cnt, Ty: m.TNum}, R: m.NumLit(1), Ty: m.TNum}}
 	body = append([]m.Stmt{inc}, body...)
+	if g.Cfg.IterMarks {
+		body = append([]m.Stmt{Print(m.StrLit("@iter"))}, body...)
+	}
 	return []m.Stmt{&m.Decl{Name: cnt, Ty: m.TNum, Init: m.NumLit(0)}, &m.While{Cond: cond, Body: body}}
 }
 
@@ -988,6 +999,9 @@ func (g *G) forBody(s *m.ForNum, depth int) m.Stmt {
 	if len(vs) > 0 {
 		s.Body = append([]m.Stmt{PrintVars("i", vs)}, s.Body...)
 	}
+	if g.Cfg.IterMarks {
+		s.Body = append([]m.Stmt{Print(m.StrLit("@iter"))}, s.Body...)
+	}
 	return s
 }
 
@@ -1024,6 +1038,9 @@ func (g *G) ForIn(depth int) m.Stmt {
 	vs := g.Pop()
 	if len(vs) > 0 {
 		s.Body = append([]m.Stmt{PrintVars("e", vs)}, s.Body...)
+	}
+	if g.Cfg.IterMarks {
+		s.Body = append([]m.Stmt{Print(m.StrLit("@iter"))}, s.Body...)
 	}
 	return s
 }
@@ -1066,6 +1083,9 @@ func (g *G) Func(depth int) *m.Func {
 		return []m.Stmt{&m.Return{Val: g.Conv(f.Ret, 2)}}
 	})
 	f.Body = append([]m.Stmt{PrintVars(f.Name, params)}, f.Body...)
+	if g.Cfg.IterMarks {
+		f.Body = append([]m.Stmt{Print(m.StrLit("@call"))}, f.Body...)
+	}
 	g.inFunc, g.inLoop, g.retType = wasFunc, wasLoop, wasRet
 	g.scopes = saved
 	g.Funcs = append(g.Funcs, f)
